@@ -1,6 +1,7 @@
 //! C04 harness: histories of offers / claims / bulk offers / limit, connection and close operations on shared and
 //! exclusive publications over an in-memory log; see hist.rs for the line format.
-//!   hist <kind> <tlen> <mtu> <init> <n0> <off0> | op ; op ; ...
+//!   hist <kind> <tlen> <mtu> <init> <n0> <off0> | op ; op ; ...      observations of the log after every operation
+//!   gets <kind> <tlen> <mtu> <init> <n0> <off0> | op ; op ; ...      the publication's getters at hand-over and after every operation
 mod hist;
 
 fn main() {
@@ -8,6 +9,7 @@ fn main() {
         let (kind, rest) = line.split_once(' ').unwrap_or((line, ""));
         match kind {
             "hist" => hist::run_history(rest),
+            "gets" => hist::run_getters(rest),
             other => panic!("unknown case kind {}", other),
         }
     });
